@@ -1,5 +1,100 @@
-//! C02 - monitor not built yet.
+//! C02 - Every index answers exactly from the stored documents.
+//! Seeded histories over fixture F (add/update/remove/flush/compact/extension/reconcile/
+//! reopen with index create+backfill and index removal, rejected operations mixed in); after
+//! EVERY operation the full bidirectional audit (v_db::audit) runs through the public API.
+//! The crash-point quantifier of C02 is covered by C01, which runs the same audit on every
+//! recovered state.
+
+use std::sync::Arc;
+use v_db::audit::{AuditCtx, audit};
+use v_db::driver::{Driver, GenCfg, Op, Step, gen_op};
+use v_db::{Cfg, IndexSet};
+use vcore::recstore::RecStore;
+use vcore::run::block_on;
+use vcore::{Rng, Run, Stats, json};
+
+fn case(case: u64, rng: &mut Rng, st: &mut Stats, n_ops: usize) {
+    let cfg = Cfg::random(rng);
+    let contention = *rng.pick(&[4u64, 8, 12, 30]);
+    let set0 = if rng.chance(3, 4) { IndexSet::ALL } else { IndexSet(rng.below(512) as u16) };
+    let store = RecStore::new();
+    store.set_record_reads(false);
+    block_on(async {
+        let mut d = match Driver::start(Arc::new(store.clone()), cfg, set0).await {
+            Ok(d) => d,
+            Err(e) => {
+                st.violation("C02/setup_failed", json!({"error": format!("{e:?}"), "cfg": format!("{cfg:?}")}));
+                return;
+            }
+        };
+        let g = GenCfg { contention, ..Default::default() };
+        let mut kinds = std::collections::BTreeSet::new();
+        let mut rejected = 0;
+        let mut audits_after_reject = 0;
+        for _ in 0..n_ops {
+            let op = gen_op(rng, &d.model, d.set, &g);
+            kinds.insert(op.kind());
+            let step = d.step(&op, st).await;
+            match step {
+                Step::Applied => {}
+                Step::Rejected(_) => {
+                    rejected += 1;
+                    audits_after_reject += 1;
+                }
+                Step::Failed(e) => {
+                    st.violation("C02/storage_error_without_fault", json!({"error": e, "context": d.ctx()}));
+                    return;
+                }
+                Step::Wrong(sig, detail) => {
+                    st.violation(format!("C02/{sig}"), json!({"detail": detail, "case": case, "context": d.ctx()}));
+                    return;
+                }
+            }
+            if matches!(op, Op::Reopen(_)) {
+                st.count("audits_after_reopen");
+            }
+            let ctx = d.ctx();
+            let ok = audit(&d.coll, &d.model, d.set, st, &AuditCtx { sig: "C02", ctx: &|| json!({"case": case, "driver": ctx.clone()}) }).await;
+            if !ok {
+                return;
+            }
+            if let Some(m) = d.ext_mismatch() {
+                st.violation("C02/extension_mismatch", json!({"detail": m, "context": d.ctx()}));
+                return;
+            }
+            st.eval();
+        }
+        st.add("audits_after_rejected_op", audits_after_reject);
+        let has = |k: &str| kinds.contains(k);
+        if has("update") && has("remove") && has("reopen") && rejected > 0 {
+            st.distinct(vcore::fnv_str(&d.history.join(";")));
+        }
+        st.set("index_sets", d.set.0 as u64);
+        st.sample(|| json!({"cfg": format!("{cfg:?}"), "contention": contention, "ops": d.history.iter().take(10).collect::<Vec<_>>(),
+                            "final_docs": d.model.docs.len()}));
+    });
+}
+
 fn main() {
-    println!("INCONCLUSIVE property=C02 monitor not built yet");
-    std::process::exit(2);
+    let mut run = Run::from_args(
+        "C02",
+        "exploration",
+        "seeded operation histories (25-40 ops) over fixture F; one evaluation = one operation followed by the \
+         full index<->document audit; a history is non-trivial when it contains an update, a remove, a rejected \
+         operation and a reopen; distinct by operation sequence",
+    );
+    run.assume("HNSW reachability of every live vector is statistical and is counted, not asserted; soundness (only live ids that carry a vector, one entry per such document) is asserted");
+    run.assume("expected index content is derived from the model with the documented rules: Null skipped, arrays and map keys expanded, composite key = canonical CBOR of Some(field) concatenated");
+    let t = run.tier;
+    run.parallel("histories", t.pick(6000, 400000), 0.95, |c, rng, st| case(c, rng, st, 25 + (c % 16) as usize));
+    run.floor("audits", 2000);
+    run.floor("audits_after_rejected_op", 100);
+    run.floor("audits_after_reopen", 50);
+    run.floor("oracle_btree_eq", 10000);
+    run.floor("oracle_bm25_term", 5000);
+    run.floor("oracle_hnsw_search", 1000);
+    run.floor("op:update", 500);
+    run.floor("op:remove", 300);
+    run.floor("op:compact_btree", 20);
+    run.finish();
 }
